@@ -542,10 +542,9 @@ def main(argv):
         if cmd == "sync":
             reg = registry()
             frag = argv[1]
-            feats = []
-            for u in reg["units"].values():
-                if frag in u["fragments"]:
-                    feats = u.get("features", [])
+            # a fragment shared by several units is snapshotted with the smallest feature set that uses it
+            cands = [u.get("features", []) for u in reg["units"].values() if frag in u["fragments"]]
+            feats = min(cands, key=len) if cands else []
             U.sync(Repo(repo_root(), feats), frag, only=set(argv[2:]) or None)
             return 0
         if cmd == "build":
